@@ -556,7 +556,7 @@ func init() {
 						if err != nil {
 							return err
 						}
-						return ccs.IsSolved(w, gadget.CommitOverrides(ccs)...)
+						return ccs.IsSolved(w, gadget.SolveOpts(ccs)...)
 					}
 					if c.Int("i") < 0 {
 						if err := solve(in.Clone()); err != nil {
